@@ -880,6 +880,20 @@ impl Resolver {
         use sylt_parser::StatementKind as SK;
         use Statement as S;
         let span = stmt.span;
+        // Type and external declarations only exist at the top level - the later passes
+        // assume this.
+        if !self.stack.is_empty()
+            && matches!(
+                &stmt.kind,
+                SK::Blob { .. } | SK::Enum { .. } | SK::ExternalDefinition { .. }
+            )
+        {
+            raise_resolution_error! {
+                self,
+                span,
+                "Blobs, enums and externals can only be declared at the top level"
+            }
+        }
         Ok(match &stmt.kind {
             // These are already handled
             SK::EmptyStatement | SK::FromUse { .. } | SK::Use { .. } => None,
